@@ -173,8 +173,9 @@ impl Accept {
     pub fn one(p: &'static str) -> Accept {
         Accept { props: vec![p] }
     }
+    /// an entry is a property id ("C03") or a signature prefix ("C01:contents")
     pub fn accepts(&self, f: &Fail) -> bool {
-        self.props.iter().any(|p| *p == f.prop)
+        self.props.iter().any(|p| if p.contains(':') { f.sig.starts_with(p) } else { *p == f.prop })
     }
 }
 
@@ -211,7 +212,9 @@ where
     let _ = seed_bytes;
     let mut runner = TestRunner::new(cfg);
     let res = runner.run(&strategy, |c| {
+        case_begin(|| serde_json::to_string(&c).unwrap_or_default());
         let r = exec(&c);
+        case_end();
         let already_failed = *failed.borrow();
         if let Some(hb) = &r.harness_bug {
             let mut o = out.borrow_mut();
@@ -365,6 +368,39 @@ pub fn run_parallel<T: Send + 'static>(jobs: Vec<T>, threads: usize, f: impl Fn(
 }
 
 fn install_thread() {}
+
+/// Start of the case currently executed by each worker thread (0 = idle), for the watchdog.
+pub static CASE_STARTS: Mutex<Vec<(std::thread::ThreadId, std::time::Instant, String)>> = Mutex::new(Vec::new());
+
+pub fn case_begin(desc: impl FnOnce() -> String) {
+    let id = std::thread::current().id();
+    let mut g = CASE_STARTS.lock().unwrap();
+    g.retain(|(t, _, _)| *t != id);
+    g.push((id, std::time::Instant::now(), desc()));
+}
+pub fn case_end() {
+    let id = std::thread::current().id();
+    CASE_STARTS.lock().unwrap().retain(|(t, _, _)| *t != id);
+}
+
+/// A case that runs longer than `limit_s` means the crate (or the harness) diverges or crawls:
+/// inconclusive, reported as exit code 2 - never as a violation.
+pub fn start_watchdog(prop: String, limit_s: u64) {
+    std::thread::spawn(move || loop {
+        std::thread::sleep(std::time::Duration::from_millis(500));
+        let g = CASE_STARTS.lock().unwrap();
+        for (_, t, desc) in g.iter() {
+            if t.elapsed().as_secs() >= limit_s {
+                let dir = format!("{VERIF}/out");
+                let _ = std::fs::create_dir_all(&dir);
+                let path = format!("{dir}/watchdog-{prop}.json");
+                let _ = std::fs::write(&path, desc);
+                println!("INFRASTRUCTURE-ERROR property={prop}: a single case exceeded {limit_s} s (divergence in the code under test or in the harness); the case was written to {path}; result inconclusive");
+                std::process::exit(2);
+            }
+        }
+    });
+}
 
 #[derive(Serialize)]
 pub struct Evidence {
